@@ -218,10 +218,15 @@ fn gen_impl_delegation_trait_defs(
                     continue;
                 }
 
+                let lifetime = match trait_fn.sig().inputs.first() {
+                    Some(syn::FnArg::Receiver(receiver)) => receiver.lifetime().cloned(),
+                    _ => None,
+                };
+
                 trait_fn.entrait_sig.sig.inputs.insert(
                     1,
                     syn::parse_quote! {
-                        __impl: &::#entrait::Impl<EntraitT>
+                        __impl: & #lifetime ::#entrait::Impl<EntraitT>
                     },
                 );
             }
